@@ -28,9 +28,8 @@ type c19Target struct {
 
 var c19Targets = []c19Target{
 	{"plain.klg", "1h"},
-	{"with space and 'quote\".klg", "2h"},
+	{"with space, 'quote\" and ünï-中.klg", "2h"},
 	{"missing.klg", ""},
-	{"ünï-中.klg", "3h"},
 }
 
 // model keys (normalised names) and the spellings a user may type for them
@@ -46,7 +45,7 @@ var c19Spellings = map[string][]string{
 
 func c19Dims(tier fw.Tier) (keys []string, ntargets int) {
 	if tier == fw.Thorough {
-		return c19Keys, 4
+		return c19Keys, 3
 	}
 	return c19Keys[:4], 3
 }
@@ -83,7 +82,7 @@ func init() {
 		ID:    "C19",
 		Title: "The bookmark database behaves as a persistent name-to-file map",
 		Rule: "explicit-state exploration of the FULL state graph of the bookmark database: states = all maps from the name keys {default, a, 'Zä b', 'w/2'} (quick) / {default, a, 'Zä b', 'w/2', A, 'q\"x'} (thorough; byte order and case-folded order of the names differ; one name looks like a relative path) to " +
-			"{absent, existing files with spaces/quotes (quick: 2) and non-ASCII (thorough: 3) in their path (one also by a relative spelling), a missing file set with --force}: 4^4 = 256 / 5^6 = 15625 states; every state is built through the real CLI " +
+			"{absent, a plain file (also by a relative spelling), a file with spaces, quotes and non-ASCII characters in its path, a missing file set with --force}: 4^4 = 256 / 4^6 = 4096 states; every state is built through the real CLI " +
 			"along a shortest path from the empty database; in every state EVERY operation is executed: set x every spelling of every name (\"\", @, default, @default, a, @a, @@a, …) x every target (with and without --force), " +
 			"unset x every spelling plus unknown names, the alias spellings (bk new / bookmark set / bk rm / bk clear -y / bk ls), clear --yes, clear answered y / n / EOF; observers list (also under reversed and rotated map iteration orders), info (--dir, --file), `klog total @name`, `klog total` (default bookmark) on every state. " +
 			"A transition is non-trivial if it changes the state or is rejected; distinct by (state, operation).",
